@@ -132,7 +132,19 @@ impl<'a> G<'a> {
     }
     /// boundary-biased u64: powers of two +-1, lenenc class edges, or uniform
     pub fn u64_biased(&mut self) -> u64 {
-        match self.weighted(&[3, 3, 3, 2]) {
+        match self.weighted(&[6, 6, 6, 4, 3]) {
+            4 => {
+                // around the powers of ten (where decimal lengths change)
+                let k = self.below(20) as u32;
+                let base = 10u64.pow(k);
+                match self.below(5) {
+                    0 => base,
+                    1 => base.wrapping_sub(1),
+                    2 => base.wrapping_sub(2),
+                    3 => base.wrapping_add(1),
+                    _ => base.wrapping_sub(self.below(2000)),
+                }
+            }
             0 => self.below(300),
             1 => {
                 let k = self.below(64) as u32;
@@ -169,7 +181,24 @@ impl<'a> G<'a> {
     }
     /// boundary-biased i64
     pub fn i64_biased(&mut self) -> i64 {
-        match self.weighted(&[3, 3, 2, 2]) {
+        match self.weighted(&[6, 6, 4, 4, 3]) {
+            4 => {
+                // around the powers of ten (where decimal lengths change), both signs
+                let k = self.below(19) as u32;
+                let base = 10i64.pow(k);
+                let v = match self.below(5) {
+                    0 => base,
+                    1 => base - 1,
+                    2 => base - 2,
+                    3 => base.wrapping_add(1),
+                    _ => base.wrapping_sub(self.below(2000) as i64),
+                };
+                if self.coin() {
+                    v.wrapping_neg()
+                } else {
+                    v
+                }
+            }
             0 => self.irange(-130, 130),
             1 => {
                 let k = self.below(63) as u32;
